@@ -27,7 +27,7 @@ Derived(ev) == IF "calc" \in DOMAIN ev THEN CalcDiff(ev.calc, ev.bytes, 32) ELSE
 
 OwnerT(f) == IF f \in {"outcome", "alloc", "ops"} THEN "C01"
              ELSE IF f = "tail_influence" THEN "C02"
-             ELSE IF f \in {"csome", "chdg", "cgs", "cvrate"} THEN "C07" ELSE Owner(f)
+             ELSE IF f \in {"csome", "chdg", "chdg_negative", "cgs", "cvrate"} THEN "C07" ELSE Owner(f)
 
 \* C04: address text round trip over all 2^24 addresses (counted by the recorder) and sample texts
 IcaoDiff(ev) == (IF ev.failures = 0 /\ ev.checked = 16777216 THEN {} ELSE {"icao_roundtrip"})
